@@ -640,3 +640,23 @@ def find_visit(F):
     cands = [x for x in F.fn_bodies() if x.path.startswith('hot_reloading::dependencies::') and x.kind != 'Closure'
              and any(c.callee and c.callee.best == x.path for c in x.calls())]
     return cands[0] if len(cands) == 1 else None
+
+
+RUN_UPDATE = 'hot_reloading::paths::run_update'
+RELOAD = 'hot_reloading::dependencies::DepsGraph::reload'
+TOPO = 'hot_reloading::dependencies::DepsGraph::topological_sort_from'
+
+
+def update_passes(F):
+    """{function path: body in which the update pass (sort the change set, reload each key) is written out}.
+    Today the pass is the free function run_update, called from three HotReloadingData methods; it may as well be a
+    private method or be written in each of them.  The free function (if it exists) is inlined into its callers, so
+    the result is the same in every case: the functions that *run* an update, with the pass in their body."""
+    out = {}
+    for b in F.fn_bodies():
+        if b.kind == 'Closure' or b.path == RUN_UPDATE:
+            continue
+        v = F.view(b.path, [RUN_UPDATE]) if any(c.callee and c.callee.best == RUN_UPDATE for c in b.calls()) else b
+        if any(c.callee and c.callee.best in (RELOAD, TOPO) for u in [v] + [x for x in F.unit(b) if x is not b] for c in u.calls()):
+            out[b.path] = v
+    return out
